@@ -9,15 +9,26 @@ verus! {
 //@@ include prelude/store.rs
 //@@ include prelude/rows.rs
 //@@ include prelude/storeabs.rs
-//@@ extract file=acts/src/scheduler/state.rs item="enum TaskState" name=TaskState
-//@@ opt structural
-//@@ end
+//@@ include prelude/state.rs HAVE_MESSAGE_STATE=1
 
 // ---- the live objects, seen through their getters (each getter = one RwLock read; ASSUMED plain reads)
 pub uninterp spec fn state_str(s: TaskState) -> Seq<char>;     // state_to_str (scheduler/state.rs): checked with Kani (K-state)
 // TRUSTED: `impl From<TaskState> for String` = state_to_str
 #[verifier::external_body]
 pub fn state_into_string(s: TaskState) -> (r: String) ensures r@ == state_str(s) { unimplemented!() }
+// reading the stored text back (`impl From<String> for TaskState` = str_to_state).  TRUSTED here, PROVED in unit K-state (Kani, all 13 states):
+// str_to_state(state_to_str(s)) == s.  Not used by the unchanged write path; it lets the unit follow code that reads a row's state.
+pub uninterp spec fn state_of_str(s: Seq<char>) -> TaskState;
+#[verifier::external_body]
+pub broadcast proof fn axiom_state_text_round_trip(s: TaskState) ensures #[trigger] state_of_str(state_str(s)) == s {}
+impl vstd::std_specs::convert::FromSpecImpl<String> for TaskState {
+    open spec fn obeys_from_spec() -> bool { true }
+    open spec fn from_spec(s: String) -> Self { state_of_str(s@) }
+}
+impl From<String> for TaskState {
+    #[verifier::external_body]
+    fn from(s: String) -> (r: Self) ensures r == state_of_str(s@) { unimplemented!() }
+}
 #[verifier::external_body]
 pub struct NodeObj { _p: u8 }
 impl NodeObj {
